@@ -126,8 +126,19 @@ func w2aFill(c *Ctx, m protoreflect.Message, depth int, unknown bool) (ok bool) 
 
 var w2aMarshal = proto.MarshalOptions{AllowPartial: true, Deterministic: true}
 
+// w2aOpts: reflection-path flavours resolve extensions to dynamicpb extension types (msgDynTypes,
+// the types msgRandomFill uses for dynamicpb messages), so that their messages stay purely dynamic
+// and every extension field has one descriptor identity.
+func w2aOpts(fl w2aFlavour, o proto.UnmarshalOptions) proto.UnmarshalOptions {
+	if fl.slow {
+		o.Resolver = msgDynTypes()
+	}
+	return o
+}
+
 func w2aUnmarshal(fl w2aFlavour, b []byte, o proto.UnmarshalOptions) (protoreflect.Message, error) {
 	m := fl.new()
+	o = w2aOpts(fl, o)
 	o.AllowPartial = true
 	err := o.Unmarshal(b, m.Interface())
 	return m, err
